@@ -54,7 +54,8 @@ def _digest_any(o):
         unc = o.uncertainty
         return ('nddata', buffer_digest(o.data), buffer_digest(
             None if o.mask is None else np.asarray(o.mask)),
-            buffer_digest(None if unc is None else unc.array), str(o.unit))
+            buffer_digest(None if unc is None else unc.array), str(o.unit),
+            repr(sorted((k, repr(v)) for k, v in o.meta.items())))
     if mod.startswith('photutils.aperture'):
         return ('aper', _aper_digest(o))
     if hasattr(o, 'param_names'):
@@ -216,6 +217,12 @@ class InputsMachine(Machine):
             arr[10:14, 10:15] = 1
             seg = SegmentationImage(arr)
         P['segm'] = SegmentationImage(seg.data.copy())
+        # grid of ePSFs handed to GriddedPSFModel
+        psfs = np.array([psfimg / psfimg.sum() * (1 + 0.1 * k)
+                         for k in range(4)])
+        P['psfgrid'] = NDData(psfs, meta={
+            'grid_xypos': [(0, 0), (31, 0), (0, 29), (31, 29)],
+            'oversampling': 1})
         P['nddata'] = NDData(data.copy(), mask=mask.copy(),
                              uncertainty=StdDevUncertainty(
                                  P['error'].copy()))
@@ -252,10 +259,12 @@ class InputsMachine(Machine):
              'catalog_new', 'profile_new', 'psfphot_new', 'make_model_image',
              'model_eval', 'grouper', 'total_error', 'data_properties',
              'gini', 'cutout', 'ellipse', 'fit_gaussian', 'extract_stars',
-             'segm_reads', 'sky_apertures', 'image_depth', 'actor_read',
-             'actor_read', 'actor_read']
+             'segm_reads', 'sky_apertures', 'image_depth', 'gridded_model',
+             'psf_model_image', 'idw', 'catalog_detcat', 'epsf_builder',
+             'actor_read', 'actor_read', 'actor_read']
     WEIGHTS = [3, 2, 3, 3, 1, 4, 2, 2, 4, 2, 2, 1, 1, 3, 3, 3, 2, 1, 1, 1, 2,
-               1, 1, 0.3, 2, 1.5, 1.5, 1.5, 0.6, 4, 4, 4]
+               1, 1, 0.3, 2, 1.5, 1.5, 1.5, 0.6, 1.5, 1, 1, 1.5, 0.4, 4, 4,
+               4]
 
     def next_op(self, rng, st):
         if st.nsteps >= rng.randint(3, 9) and st.nsteps >= 3:
@@ -761,6 +770,83 @@ class InputsMachine(Machine):
         return self._run(st, op, lambda: ImageDepth(
             2.0, nsigma=3.0, napers=20, niters=2, mask_pad=o % 3,
             overlap=bool(o % 2), seed=o, progress_bar=False)(data, mask))
+
+    def _s_gridded_model(self, st, op, data, mask, error):
+        from photutils.datasets import make_model_image
+        from photutils.psf import GriddedPSFModel, PSFPhotometry
+        P = st.P
+        v = op['variant']
+
+        def fn():
+            m = GriddedPSFModel(P['psfgrid'], flux=2.0, x_0=10.2, y_0=11.7)
+            yy, xx = np.mgrid[5:18, 5:17]
+            out = m(xx, yy)
+            c = m.copy()
+            c.x_0 = 20.0
+            out = out + c(xx, yy)
+            if v % 3 == 0:
+                make_model_image((30, 32), m, P['params'],
+                                 model_shape=(7, 7))
+            elif v % 3 == 1:
+                PSFPhotometry(m, 5, aperture_radius=4)(
+                    P['clean'], init_params=P['init'])
+            return out
+        return self._run(st, op, fn)
+
+    def _s_psf_model_image(self, st, op, data, mask, error):
+        from photutils.psf import make_psf_model_image
+        P = st.P
+        m = P['imodel'] if op['variant'] % 2 else P['model']
+        return self._run(st, op, lambda: make_psf_model_image(
+            (30, 32), m, 3, model_shape=(7, 7), flux=(50, 100),
+            min_separation=3, seed=op['variant']))
+
+    def _s_idw(self, st, op, data, mask, error):
+        from photutils.utils import ShepardIDWInterpolator
+        P = st.P
+        coords = np.column_stack([P['xpos'], P['ypos']])
+        vals = P['xpos'] * 2.0
+        if 'idw_coords' not in P:
+            P['idw_coords'], P['idw_vals'] = coords, vals
+            st.d0['idw_coords'] = _digest_any(coords)
+            st.d0['idw_vals'] = _digest_any(vals)
+        return self._run(st, op, lambda: ShepardIDWInterpolator(
+            P['idw_coords'], P['idw_vals'])(
+                [[3.0, 4.0], [10.0, 12.0]], n_neighbors=2, power=1.0 + op[
+                    'variant'] % 2))
+
+    def _s_catalog_detcat(self, st, op, data, mask, error):
+        from photutils.segmentation import SourceCatalog
+        P = st.P
+        if op['data'] == 'q':
+            data = P['nd']
+
+        def fn():
+            det = SourceCatalog(P['clean'], P['segm'],
+                                convolved_data=P['clean'])
+            cat = SourceCatalog(data, P['segm'], error=error, mask=mask,
+                                detection_cat=det)
+            return cat
+        out = self._run(st, op, fn)
+        self._keep(st, 'catalog', out, op)
+        return out
+
+    def _s_epsf_builder(self, st, op, data, mask, error):
+        from astropy.nddata import NDData
+        from astropy.table import Table
+        from photutils.psf import EPSFBuilder, extract_stars
+        P = st.P
+        tbl = Table()
+        tbl['x'] = P['xpos']
+        tbl['y'] = P['ypos']
+
+        def fn():
+            stars = extract_stars(P['nddata_w'] if op['variant'] % 2
+                                  else NDData(P['clean']), tbl, size=9)
+            epsf, fitted = EPSFBuilder(oversampling=1, maxiters=1,
+                                       progress_bar=False)(stars)
+            return epsf.data
+        return self._run(st, op, fn)
 
     # lazily evaluated properties / later calls of retained objects
     def _s_actor_read(self, st, op, data, mask, error):
